@@ -331,3 +331,90 @@ Proof.
   - constructor; cbn [e_r e_block e_baddr set_reloc set_pc r_reloc r_pc a_val a_bus length]; auto. lia.
   - destruct (e_block st); reflexivity.
 Qed.
+
+(** ** C03 — whole runs *)
+
+(** The bytes each node emits along an emission run (a ghost trace of the same run). *)
+Fixpoint emit_trace (w : world) (st : estate) (ns : list node) (addrs : list Z) : res (list bytes) :=
+  match ns with
+  | [] => Ok []
+  | n :: rest =>
+      match addrs with
+      | x :: addrs' =>
+          do rb <- node_emit w (e_r st) n;
+          do st' <- emit_step w st n x;
+          do bss <- emit_trace w st' rest addrs';
+          Ok (snd rb :: bss)
+      | [] => Err EIndex
+      end
+  end.
+
+(** Whole-run conservation: for a run without included patches, what reached the writer plus the
+    still open block is exactly the concatenation of every node's bytes, in source order. *)
+Theorem emit_prefix_conserves w ns : forallb (fun n => negb (is_ips n)) ns = true -> forall st addrs st',
+  emit_prefix w st ns addrs = Ok st' ->
+  exists bss, emit_trace w st ns addrs = Ok bss /\
+    concat (map fst (e_out st')) ++ e_block st' = concat (map fst (e_out st)) ++ e_block st ++ concat bss.
+Proof.
+  induction ns as [|n ns IH]; intros Hips st addrs st' H; cbn [emit_prefix emit_trace] in *.
+  - inversion H; subst. exists []. split; [reflexivity|]. cbn [concat]. rewrite app_nil_r. reflexivity.
+  - cbn [forallb] in Hips. apply andb_prop in Hips as [Hn Hrest].
+    destruct addrs as [|x addrs]; [discriminate|].
+    destruct (emit_step w st n x) as [st1| |] eqn:ES; cbn [bind] in H; try discriminate.
+    destruct (emit_step_conserves w st n x st1 ltac:(destruct (is_ips n); [discriminate|reflexivity]) ES) as (r1 & bs & NE & C1).
+    rewrite NE. cbn [bind snd].
+    destruct (IH Hrest st1 addrs st' H) as (bss & T & C2).
+    rewrite T. cbn [bind]. exists (bs :: bss). split; [reflexivity|].
+    rewrite C2. cbn [concat]. rewrite app_assoc, C1, <- !app_assoc. reflexivity.
+Qed.
+
+(** The run address after a non-position node is the address whose offset is larger by the number
+    of bytes emitted (whatever the range: the address constructor may still refuse it). *)
+Lemma emit_step_offset w m st n x st1 :
+  synced m st -> is_position n = false -> emit_step w st n x = Ok st1 ->
+  exists r1 bs, node_emit w (e_r st) n = Ok (r1, bs) /\
+    spec_offset m (a_val (r_reloc (e_r st1))) = spec_offset m (a_val (r_reloc (e_r st))) + Z.of_nat (length bs).
+Proof.
+  intros [Hcov Hmask Hrom Hwin Hbank Hoff Hpc] Hpos. unfold emit_step.
+  destruct (negb _); [discriminate|].
+  destruct (node_emit w (e_r st) n) as [[r1 bs]| |] eqn:NE; cbn [bind]; try discriminate.
+  destruct (node_emit_keeps_position _ _ _ _ _ Hpos NE) as [Hrel Hpc1].
+  assert (Hcp : is_codepos n = false) by (destruct n; try reflexivity; discriminate). rewrite Hcp.
+  exists r1, bs. split; [reflexivity|].
+  destruct bs as [|b0 bs0]; cbn [bind] in *.
+  - assert (e_r st1 = r1) by (destruct n; inversion H; reflexivity). subst r1. rewrite Hrel. cbn. lia.
+  - revert H. unfold addr_plus. rewrite Hrel. unfold addr_add. rewrite bank_shiftr, (Hcov _ Hbank). cbn [bind].
+    rewrite physical_rom by assumption. rewrite logical_spec by assumption. cbn [bind].
+    set (p' := spec_offset m (a_val (r_reloc (e_r st))) + Z.of_nat (length (b0 :: bs0))).
+    destruct (spec_address_props m p' Hmask) as (Hb' & Hw' & Ho').
+    unfold get_address. destruct (bus_mapping_for_bank _ _) as [m'| |]; cbn [bind]; try discriminate.
+    intros E.
+    assert (Ha : a_val (r_reloc (e_r st1)) = spec_address m p') by (destruct n; inversion E; reflexivity).
+    rewrite Ha, Ho'. reflexivity.
+Qed.
+
+(** Whole-run offsets: from an in-step state, a run of non-position nodes whose bytes all fit in
+    the mapped range stays in step: every node's bytes went to the file offsets the mapping assigns
+    to its run addresses, the block was never flushed, and the run address advanced by exactly the
+    number of bytes emitted (crossing bank ends where needed). *)
+Theorem emit_prefix_synced w m ns : forallb (fun n => negb (is_position n)) ns = true -> forall st addrs st' bss,
+  synced m st -> emit_prefix w st ns addrs = Ok st' -> emit_trace w st ns addrs = Ok bss ->
+  spec_offset m (a_val (r_reloc (e_r st))) + Z.of_nat (length (concat bss)) < (m_last m - m_first m + 1) * m_mask m ->
+  synced m st' /\ e_baddr st' = e_baddr st /\
+  spec_offset m (a_val (r_reloc (e_r st'))) = spec_offset m (a_val (r_reloc (e_r st))) + Z.of_nat (length (concat bss)).
+Proof.
+  induction ns as [|n ns IH]; intros Hpos st addrs st' bss Hs H T Hr; cbn [emit_prefix emit_trace] in *.
+  - inversion H; inversion T; subst. cbn. split; [exact Hs|]. split; [reflexivity|lia].
+  - cbn [forallb] in Hpos. apply andb_prop in Hpos as [Hn Hrest].
+    assert (Hn' : is_position n = false) by (destruct (is_position n); [discriminate|reflexivity]).
+    destruct addrs as [|x addrs]; [discriminate|].
+    destruct (emit_step w st n x) as [st1| |] eqn:ES; cbn [bind] in H; try discriminate.
+    destruct (emit_step_offset w m st n x st1 Hs Hn' ES) as (r1 & bs & NE & Hgrow).
+    rewrite NE in T. cbn [bind snd] in T.
+    destruct (emit_trace w st1 ns addrs) as [bss1| |] eqn:T1; cbn [bind] in T; try discriminate.
+    inversion T; subst bss. cbn [concat] in Hr. rewrite app_length, Nat2Z.inj_add in Hr.
+    assert (Hmid : spec_offset m (a_val (r_reloc (e_r st1))) < (m_last m - m_first m + 1) * m_mask m) by lia.
+    destruct (emit_step_synced w m st n x st1 Hs Hn' ES Hmid) as (Hs1 & _ & _ & _ & _ & Hb1).
+    destruct (IH Hrest st1 addrs st' bss1 Hs1 H T1 ltac:(lia)) as (Hs' & Hb' & Hoff).
+    split; [exact Hs'|]. split; [congruence|]. cbn [concat]. rewrite app_length, Nat2Z.inj_add. lia.
+Qed.
